@@ -170,6 +170,119 @@ pub fn eval(case: &Case) -> Verdict {
     Verdict::Pass(obs)
 }
 
+/// Interleaved messages with Set Chunk Size messages BETWEEN their chunks: a new chunk size applies
+/// to every chunk that follows it on the wire, also to the remaining chunks of messages that are
+/// already in flight on other chunk streams (RTMP 1.0 section 5.4.1).
+#[derive(Clone, Debug, Serialize, Deserialize)]
+pub struct ResizeCase {
+    pub cs0: u32,
+    pub group: Vec<GMsg>,
+    pub merge: Vec<u16>,
+    /// (merge step before which the change is sent, new chunk size)
+    pub resizes: Vec<(u8, u32)>,
+    pub partition: Partition,
+}
+
+pub fn eval_resize(case: &ResizeCase) -> Verdict {
+    let cs0 = case.cs0.clamp(1, 400);
+    let mut enc = RefChunkEnc::new();
+    let mut stream = Vec::new();
+    let mut n_control = 0usize;
+    if cs0 != 128 {
+        stream.extend_from_slice(&enc.set_chunk_size(cs0, 0));
+        n_control += 1;
+    }
+    let mut group: Vec<&GMsg> = Vec::new();
+    for m in &case.group {
+        if m.csid != 2 && !group.iter().any(|g| g.csid == m.csid) {
+            group.push(m);
+        }
+    }
+    // per message: the header of its first chunk, the header of its continuation chunks, its payload
+    struct InFlight {
+        first: Vec<u8>,
+        cont: Vec<u8>,
+        payload: Vec<u8>,
+        off: usize,
+    }
+    let mut msgs: Vec<InFlight> = Vec::new();
+    let mut ts = 0u32;
+    for m in &group {
+        ts = ts.wrapping_add(m.dts);
+        let msg = build(m, ts, cs0);
+        // encode at chunk size 1 to read off both headers, whatever the message length
+        let keep = enc.chunk_size;
+        enc.chunk_size = 1;
+        let e = enc.encode(&msg, &EncOpts { csid: m.csid, want_fmt: m.want_fmt, three_byte: false, fmt0_continuation: false });
+        enc.chunk_size = keep;
+        let first = e.chunks[0][..e.chunks[0].len() - 1].to_vec();
+        let cont = if e.chunks.len() > 1 { e.chunks[1][..e.chunks[1].len() - 1].to_vec() } else { Vec::new() };
+        msgs.push(InFlight { first, cont, payload: msg.payload.clone(), off: 0 });
+    }
+    let mut cs_now = cs0 as usize;
+    let mut step = 0usize;
+    let mut resized_mid_message = false;
+    loop {
+        let live: Vec<usize> = (0..msgs.len()).filter(|i| msgs[*i].off < msgs[*i].payload.len()).collect();
+        if live.is_empty() {
+            break;
+        }
+        for (at, new_cs) in &case.resizes {
+            if *at as usize == step {
+                let new_cs = (*new_cs).clamp(1, 0x7FFF_FFFF);
+                enc.chunk_size = cs_now;
+                stream.extend_from_slice(&enc.set_chunk_size(new_cs, 0));
+                n_control += 1;
+                cs_now = new_cs as usize;
+                if msgs.iter().any(|m| m.off > 0 && m.off < m.payload.len()) {
+                    resized_mid_message = true;
+                }
+            }
+        }
+        let pick = if step < case.merge.len() { live[((case.merge[step] as usize) * live.len()) >> 16] } else { live[0] };
+        step += 1;
+        let m = &mut msgs[pick];
+        let n = cs_now.min(m.payload.len() - m.off);
+        stream.extend_from_slice(if m.off == 0 { &m.first } else { &m.cont });
+        stream.extend_from_slice(&m.payload[m.off..m.off + n]);
+        m.off += n;
+    }
+    let mut rd = RefChunkDec::new(true);
+    let dec = match rd.feed(&stream).and_then(|d| rd.finish().map(|_| d)) {
+        Ok(d) => d,
+        Err(e) => return Verdict::Harness(format!("RefChunkDec rejects the reference stream with chunk-size changes between chunks: {}", e)),
+    };
+    if dec.len() != n_control + msgs.len() {
+        return Verdict::Harness(format!("reference delivered {} messages, {} were sent", dec.len(), n_control + msgs.len()));
+    }
+    let mut want: Vec<Msg> = dec.iter().map(|d| d.msg.clone()).collect();
+    let _ = &mut want;
+    let (got, err) = lib_decode(&stream, &case.partition);
+    if let Some(e) = err {
+        vfail!("deserializer error after {} of {} messages on a conformant interleaved stream with chunk-size changes between chunks: {}", got.len(), want.len(), e);
+    }
+    if let Some(d) = first_difference(&got, &want) {
+        vfail!("interleaved stream with chunk-size changes between chunks decoded differently: {}", d);
+    }
+    let mut obs = Obs::new();
+    obs.class_if(resized_mid_message, "chunk-size-changed-while-a-message-was-in-flight");
+    obs.class_if(dec.iter().any(|d| d.interleaved), "chunks-interleaved");
+    obs.nontrivial = resized_mid_message;
+    Verdict::Pass(obs)
+}
+
+fn resize_case() -> BoxedStrategy<ResizeCase> {
+    (
+        prop_oneof![2 => Just(128u32), 3 => 4u32..60, 1 => 60u32..400],
+        proptest::collection::vec(gmsg(CSIDS), 2..5),
+        proptest::collection::vec(any::<u16>(), 1..24),
+        proptest::collection::vec((0u8..12, prop_oneof![3 => 1u32..40, 2 => 40u32..400, 2 => gen::pick(&[128u32, 129, 1000, 4096, 65_536, 0x7FFF_FFFF])]), 1..4),
+        gen::partition(),
+    )
+        .prop_map(|(cs0, group, merge, resizes, partition)| ResizeCase { cs0, group, merge, resizes, partition })
+        .boxed()
+}
+
 fn gmsg(csids: &'static [u32]) -> BoxedStrategy<GMsg> {
     (gen::pick(csids), 0u8..4, gen::type_id(), gen::pick(&[0u32, 1, 1, 1, 7]), gen::delta_u32(), 1u8..7, prop_oneof![3 => Just(0u8), 2 => 1u8..200], any::<u32>())
         .prop_map(|(csid, want_fmt, type_id, msid, dts, chunks, short_by, fill)| GMsg { csid, want_fmt, type_id, msid, dts, chunks, short_by, fill })
@@ -204,7 +317,7 @@ pub fn spec() -> PropSpec {
     PropSpec {
         id: "C16",
         level: "exploration",
-        rule: "2..4 multi-chunk messages (1..6 chunks each, chunk size 1..400) on distinct chunk stream ids, encoded by RefChunkEnc, preceded by a sequential prefix from the palette-based foreign generator on several chunk stream ids (incl. pairs that alias under plausible csid-decoding mistakes) so that compressed headers referring back across messages on other chunk streams are frequent; their chunks are merged by a generated choice sequence that keeps each message's own chunks in order (sub-check 'interleaved'), or sent message by message (sub-check 'overlap-free'); sub-check 'many-chunk-streams': a prefix on 63..4097 distinct chunk stream ids followed by compressed headers on older ones; generated partition. Expected deliveries come from RefChunkDec; in addition the stream is fed cut at every message end and the k-th message must be out after the k-th cut (delivery timing). Non-trivial = >= 2 group messages and at least one multi-chunk message; distinct = distinct case. The shared-reassembly-buffer defect this check first reported (D11) is repaired in /repo (c2ab1c5); the signature classification stays in the code so that a return of it is named, but nothing is set aside any more: every interleaving is enforced",
+        rule: "2..4 multi-chunk messages (1..6 chunks each, chunk size 1..400) on distinct chunk stream ids, encoded by RefChunkEnc, preceded by a sequential prefix from the palette-based foreign generator on several chunk stream ids (incl. pairs that alias under plausible csid-decoding mistakes) so that compressed headers referring back across messages on other chunk streams are frequent; their chunks are merged by a generated choice sequence that keeps each message's own chunks in order (sub-check 'interleaved'), or sent message by message (sub-check 'overlap-free'); sub-check 'interleaved-with-chunk-size-changes': Set Chunk Size messages between the chunks of messages in flight (the new size applies to their remaining chunks); sub-check 'many-chunk-streams': a prefix on 63..4097 distinct chunk stream ids followed by compressed headers on older ones; generated partition. Expected deliveries come from RefChunkDec; in addition the stream is fed cut at every message end and the k-th message must be out after the k-th cut (delivery timing). Non-trivial = >= 2 group messages and at least one multi-chunk message; distinct = distinct case. The shared-reassembly-buffer defect this check first reported (D11) is repaired in /repo (c2ab1c5); the signature classification stays in the code so that a return of it is named, but nothing is set aside any more: every interleaving is enforced",
         assumptions: vec![
             "RefChunkDec/RefChunkEnc transcribe RTMP 1.0 section 5.3.1 (per-chunk-stream reassembly)",
             "D11 (shared reassembly buffer) is fixed; a failure with its old signature (everything before the first overlap point right, divergence at or after it) is a violation like any other",
@@ -212,6 +325,7 @@ pub fn spec() -> PropSpec {
         checks: vec![
             PropCheck::new("interleaved", |_| case_strategy(false), 60_000, 1_500_000, eval),
             PropCheck::new("overlap-free", |_| case_strategy(true), 60_000, 1_500_000, eval),
+            PropCheck::new("interleaved-with-chunk-size-changes", |_| resize_case(), 30_000, 800_000, eval_resize),
             PropCheck::new("many-chunk-streams", |_| (gen::foreign_ops_many_streams(), proptest::collection::vec(gmsg(CSIDS), 2..4), gen::partition_large()).prop_map(|(pre, group, partition)| Case { chunk_size: 128, pre, group, merge: vec![], partition }).boxed(), 1_000, 30_000, eval),
         ],
     }
